@@ -80,16 +80,23 @@ Definition hfield (nv : bytes * list bytes) : bytes * bytes := (lower (fst nv), 
 Definition hfields (st : Z) (h : headers) : list (bytes * bytes) :=
   (s2b ":status", dec_of_Z st) :: map hfield h.
 
-Lemma erh_bmap (st : Z) (h : headers) :
-  encode_response_header st h = enc_map (map bpair (hfields st h)).
-Proof. unfold encode_response_header, hfields. cbn [map]. rewrite map_map. reflexivity. Qed.
+(* a successful EncodeHeader is the canonical map of the fields (its refusals -
+   status, names, values - all come before the encoding) *)
+Lemma erh_bmap (st : Z) (h : headers) (bs : bytes) :
+  encode_response_header st h = Ok bs -> enc_map (map bpair (hfields st h)) = Ok bs.
+Proof.
+  unfold encode_response_header, hfields.
+  destruct ((st <? 100) || (999 <? st))%Z; [discriminate|].
+  destruct (negb (forallb hdr_writable_b h)); [discriminate|].
+  cbn [map]. rewrite map_map. intros H. exact H.
+Qed.
 
 Theorem encode_response_header_injective (st st' : Z) (h h' : headers) (bs : bytes) :
   pairs_small (hfields st h) -> pairs_small (hfields st' h') ->
   encode_response_header st h = Ok bs -> encode_response_header st' h' = Ok bs ->
   st = st' /\ Permutation (map hfield h) (map hfield h').
 Proof.
-  intros S S' H H'. rewrite erh_bmap in H, H'.
+  intros S S' H H'. apply erh_bmap in H. apply erh_bmap in H'.
   pose proof (bmap_injective _ _ _ S' S H' H) as [_ HN'].
   destruct (bmap_injective _ _ _ S S' H H') as [HP HN].
   unfold hfields in *. cbn [map fst] in HN, HN'.
